@@ -42,15 +42,15 @@ type Violation struct {
 
 // Outcome is what one case reports.
 type Outcome struct {
-	Case         int            `json:"case"`
-	Status       string         `json:"status"` // ok | violation | inconclusive | crash | watchdog
-	Violations   []Violation    `json:"violations,omitempty"`
-	Inconclusive string         `json:"inconclusive,omitempty"`
-	NonTrivial   bool           `json:"nontrivial"`
-	Shape        string         `json:"shape"`
-	Counters     map[string]int `json:"counters,omitempty"`
-	Sample       interface{}    `json:"sample,omitempty"`
-	Witness      interface{}    `json:"witness,omitempty"`
+	Case         int                 `json:"case"`
+	Status       string              `json:"status"` // ok | violation | inconclusive | crash | watchdog
+	Violations   []Violation         `json:"violations,omitempty"`
+	Inconclusive string              `json:"inconclusive,omitempty"`
+	NonTrivial   bool                `json:"nontrivial"`
+	Shape        string              `json:"shape"`
+	Counters     map[string]int      `json:"counters,omitempty"`
+	Sample       interface{}         `json:"sample,omitempty"`
+	Witness      interface{}         `json:"witness,omitempty"`
 	Sets         map[string][]string `json:"sets,omitempty"` // named sets whose union is reported (distinct things seen)
 }
 
@@ -139,21 +139,22 @@ type Check struct {
 
 // Aggregate is what the coordinator accumulated.
 type Aggregate struct {
-	Check        *Check
-	Tier         string
-	Seed         int64
-	Outcomes     int
-	Counters     map[string]int
-	Sets         map[string]map[string]bool
-	Shapes       map[string]bool
-	Samples      []interface{}
-	Inconclusive map[string]int
-	Crashes      int
-	Watchdog     int
-	Violations   []CaseViolation
-	Extra        map[string]interface{}
-	BinDir       string
-	CocaBin      string
+	Check          *Check
+	Tier           string
+	Seed           int64
+	Outcomes       int
+	Counters       map[string]int
+	Sets           map[string]map[string]bool
+	Shapes         map[string]bool
+	Samples        []interface{}
+	Inconclusive   map[string]int
+	Crashes        int
+	Watchdog       int
+	Violations     []CaseViolation
+	Extra          map[string]interface{}
+	fallbackSample interface{}
+	BinDir         string
+	CocaBin        string
 }
 
 type CaseViolation struct {
@@ -329,7 +330,7 @@ func runWorker(chk *Check, tier string, seed int64, spec, out string, from int, 
 		})
 		o := execCase(chk, tier, seed, j, binDir, cocaBin, root, false)
 		timer.Stop()
-		if o.Status == "ok" && j >= chk.maxSamples()*k {
+		if o.Status == "ok" && j >= 8*chk.maxSamples()*k {
 			o.Sample = nil
 		}
 		if o.Status != "violation" && o.Status != "crash" {
@@ -615,8 +616,12 @@ func (a *Aggregate) add(o *Outcome) {
 	if o.NonTrivial && o.Status != "inconclusive" && o.Status != "watchdog" {
 		a.Shapes[o.Shape] = true
 	}
-	if o.Sample != nil && len(a.Samples) < a.Check.maxSamples() && o.Status == "ok" {
-		a.Samples = append(a.Samples, o.Sample)
+	if o.Sample != nil && o.Status == "ok" {
+		if o.NonTrivial && len(a.Samples) < a.Check.maxSamples() {
+			a.Samples = append(a.Samples, o.Sample)
+		} else if a.fallbackSample == nil {
+			a.fallbackSample = o.Sample
+		}
 	}
 	switch o.Status {
 	case "inconclusive":
@@ -663,6 +668,9 @@ func (a *Aggregate) finish(start time.Time, planned int) int {
 	}
 	nViol := 0
 	replayDir := filepath.Join(VerifDir, "replay")
+	if d := os.Getenv("VERIF_REPLAY_DIR"); d != "" {
+		replayDir = d
+	}
 	for _, sig := range sigOrder {
 		cvs := bySig[sig]
 		nViol += len(cvs)
@@ -683,18 +691,18 @@ func (a *Aggregate) finish(start time.Time, planned int) int {
 		incon += v
 	}
 	cov := map[string]interface{}{
-		"evaluations":         a.Outcomes,
-		"distinct_nontrivial": distinct,
-		"rule":                chk.Rule,
-		"samples":             a.Samples,
-		"cases_planned":       planned,
-		"inconclusive_cases":  incon,
+		"evaluations":          a.Outcomes,
+		"distinct_nontrivial":  distinct,
+		"rule":                 chk.Rule,
+		"samples":              a.Samples,
+		"cases_planned":        planned,
+		"inconclusive_cases":   incon,
 		"inconclusive_reasons": a.Inconclusive,
-		"crashes":             a.Crashes,
-		"watchdog_firings":    a.Watchdog,
-		"known_findings_seen": knownSeen,
-		"counters":            a.Counters,
-		"workers":             runtime.NumCPU(),
+		"crashes":              a.Crashes,
+		"watchdog_firings":     a.Watchdog,
+		"known_findings_seen":  knownSeen,
+		"counters":             a.Counters,
+		"workers":              runtime.NumCPU(),
 	}
 	sets := map[string]int{}
 	for s, m := range a.Sets {
@@ -704,7 +712,9 @@ func (a *Aggregate) finish(start time.Time, planned int) int {
 	for k, v := range a.Extra {
 		cov[k] = v
 	}
-	if a.Samples == nil {
+	if a.Samples == nil && a.fallbackSample != nil {
+		cov["samples"] = []interface{}{a.fallbackSample}
+	} else if a.Samples == nil {
 		cov["samples"] = []interface{}{}
 	}
 	ev := map[string]interface{}{
@@ -717,9 +727,13 @@ func (a *Aggregate) finish(start time.Time, planned int) int {
 		"wall_s":      time.Since(start).Seconds(),
 		"violations":  nViol,
 	}
-	os.MkdirAll(filepath.Join(VerifDir, "evidence"), 0o755)
+	evDir := filepath.Join(VerifDir, "evidence")
+	if d := os.Getenv("VERIF_EVIDENCE_DIR"); d != "" {
+		evDir = d
+	}
+	os.MkdirAll(evDir, 0o755)
 	b, _ := json.MarshalIndent(ev, "", " ")
-	ioutil.WriteFile(filepath.Join(VerifDir, "evidence", chk.ID+".json"), b, 0o644)
+	ioutil.WriteFile(filepath.Join(evDir, chk.ID+".json"), b, 0o644)
 
 	fmt.Printf("%s %s seed=%d: %d/%d cases executed, %d distinct non-trivial, %d inconclusive, %d crashes, %d watchdog, %d violations (%d known-finding hits), %.1fs\n",
 		chk.ID, a.Tier, a.Seed, a.Outcomes, planned, distinct, incon, a.Crashes, a.Watchdog, nViol, len(a.Violations)-nViol, time.Since(start).Seconds())
